@@ -4,8 +4,8 @@ import MakoModel.Lexer.Plain
 
 Theorems about `MakoModel.Lexer.lex` (the model of `mako.lexer.Lexer.parse`, tied to /repo by the correspondence
 streams of `harness/props/C01.py`), for **all** strings `s : List Char` and all configurations `cfg`
-(`Cfg.asFound` = the code as found, `Cfg.fixed` = with the proposed patches, `Cfg.current` = what /repo is now,
-regenerated).  A token `t` accounts for the source span `t.raw s = s[t.start, t.stop)`.
+(`Cfg.asFound` = the code before the F1 repair, `Cfg.fixed` = with the repair, `Cfg.current` = what /repo is now,
+regenerated – equal to `Cfg.fixed`, see `current_is_fixed`).  A token `t` accounts for the source span `t.raw s = s[t.start, t.stop)`.
 -/
 namespace MakoModel.C01
 open MakoModel.Lexer MakoModel.Basic
@@ -85,40 +85,25 @@ theorem lex_accounts_fixed (cfg : Cfg) (he : cfg.emitSkipped = true) (hb : cfg.t
 
 example : (lex Cfg.fixed (lit "a</%b")).outcome = .ok := by decide +kernel
 
-/-- **Accounting, partial** (any code variant): under the decidable guard "no step of this run was a
-    zero-width match that stepped over a character", the tokens' spans tile the source. -/
-theorem lex_accounts_partial (cfg : Cfg) (s : Str) (hok : (lex cfg s).outcome = .ok)
-    (hguard : (lex cfg s).toks.all (fun t => decide (t.payload ≠ .skipped)) = true) :
-    ((lex cfg s).toks.map (Token.raw s)).flatten = s ∧ ∀ t ∈ (lex cfg s).toks, t.payload ≠ .skipped := by
-  refine ⟨(lex_accounts_with_skipped cfg s hok).2.1, ?_⟩
-  intro t m
-  have := List.all_eq_true.mp hguard t m
-  simpa using this
-
-example : (lex Cfg.asFound (lit "a</%b>c")).toks.all (fun t => decide (t.payload ≠ .skipped)) = true := by
-  decide +kernel
-
-/- OPEN – the full statement for the code in /repo.  It is false of the code as found (`lex_accounts_counterexample`);
-   once the `fix:` patches are in, `Generated.LexerCfg` flips, `Cfg.current = Cfg.fixed` holds by `rfl`, and this
-   is `lex_accounts_current s rfl hok`:
-
+/-- **Accounting for the code in /repo** (unconditional since the `fix:` commits ac8bd37 landed and
+    `Generated.LexerCfg` flipped): when lexing succeeds, the raw spans of the tokens – nodes, closing tags, the
+    encoding comment, bare backslash-newlines – tile the source in order, and no character is skipped. -/
 theorem lex_accounts (s : Str) (hok : (lex Cfg.current s).outcome = .ok) :
     ((lex Cfg.current s).toks.map (Token.raw s)).flatten = s
-    ∧ ∀ t ∈ (lex Cfg.current s).toks, t.payload ≠ .skipped
--/
-
-/-- the full accounting statement for the code in /repo, conditional on the regenerated configuration being the
-    fixed one (a closed, decidable hypothesis: `rfl` after the fix, false before it) -/
-theorem lex_accounts_current (s : Str) (hfix : Cfg.current = Cfg.fixed) (hok : (lex Cfg.current s).outcome = .ok) :
-    ((lex Cfg.current s).toks.map (Token.raw s)).flatten = s
     ∧ ∀ t ∈ (lex Cfg.current s).toks, t.payload ≠ .skipped :=
-  lex_accounts_fixed Cfg.current (by rw [hfix]; rfl) (by rw [hfix]; rfl) s hok
+  lex_accounts_fixed Cfg.current rfl rfl s hok
 
-example : (lex Cfg.fixed (lit "<%text></%text>x")).outcome = .ok := by decide +kernel
+/-- the regenerated configuration is the fixed one (this is what makes `lex_accounts` unconditional; reverting
+    either patch in /repo flips a flag and breaks this obligation and the proof above) -/
+theorem current_is_fixed : Cfg.current = Cfg.fixed := rfl
 
-/-- The code as found drops source text: on `a</%b` lexing succeeds, and the nodes are `Text "a"` at `[0,1)`
-    and `Text "/%b"` at `[2,5)` – the `<` at offset 1 is in no node (finding F1). -/
-theorem lex_accounts_counterexample :
+example : (lex Cfg.current (lit "a</%b \n<%text></%text>x\n% foo\rbar")).outcome = .ok := by decide +kernel
+
+/-! ### history: the code as found (before ac8bd37) – kept to document finding F1, not claims about /repo -/
+
+/-- HISTORY (code as found, `Cfg.asFound`): on `a</%b` lexing succeeded with the nodes `Text "a"` at `[0,1)` and
+    `Text "/%b"` at `[2,5)` – the `<` at offset 1 was in no node (finding F1, repaired). -/
+theorem history_as_found_drops_lt :
     (lex Cfg.asFound (lit "a</%b")).outcome = .ok
     ∧ ((lex Cfg.asFound (lit "a</%b")).toks.filter (fun t => t.payload.isNode)).map (fun t => (t.start, t.stop, t.payload))
         = [(0, 1, .text (lit "a")), (2, 5, .text (lit "/%b"))]
@@ -126,10 +111,19 @@ theorem lex_accounts_counterexample :
         ≠ lit "a</%b" := by
   decide +kernel
 
-/-- second witness: a `%` line whose body holds a lone CR is not a control line; its first character is dropped -/
-theorem lex_accounts_counterexample_cr :
+/-- HISTORY (code as found): a `%` line whose body holds a lone CR is not a control line; its first character
+    was dropped. -/
+theorem history_as_found_drops_percent :
     ((lex Cfg.asFound (lit "x\n% foo\rbar")).toks.map (fun t => (t.start, t.stop, t.payload)))
       = [(0, 2, .text (lit "x\n")), (2, 3, .skipped), (3, 11, .text (lit " foo\rbar"))] := by
+  decide +kernel
+
+/-- the same inputs on the code in /repo now: every character is in a node -/
+theorem repaired_witnesses :
+    ((lex Cfg.current (lit "a</%b")).toks.map (fun t => (t.start, t.stop, t.payload)))
+      = [(0, 1, .text (lit "a")), (1, 2, .text (lit "<")), (2, 5, .text (lit "/%b"))]
+    ∧ ((lex Cfg.current (lit "x\n% foo\rbar")).toks.map (fun t => (t.start, t.stop, t.payload)))
+      = [(0, 2, .text (lit "x\n")), (2, 3, .text (lit "%")), (3, 11, .text (lit " foo\rbar"))] := by
   decide +kernel
 
 /-! ## fidelity of text -/
@@ -181,6 +175,22 @@ theorem positions_correct (cfg : Cfg) (s : Str) (hok : (lex cfg s).outcome = .ok
   intro t m
   have h := (lex_ok cfg s).toks hok t m
   exact ⟨h.line, h.col, h.le, h.stop_le⟩
+
+/-- **Also when lexing ends with a syntax error**: the tokens created before the error (what the real lexer has
+    appended to the tree when it raises) tile a prefix `s[0, q)` of the source, in order, without gaps, and each
+    reports the line and column of its start.  (Where the *error* is reported is C11's `lex_error_site`.) -/
+theorem tokens_before_error_tile_a_prefix (cfg : Cfg) (s : Str) :
+    ∃ q, q ≤ s.length ∧ Chain (lex cfg s).toks 0 q
+      ∧ ((lex cfg s).toks.map (Token.raw s)).flatten = s.take q
+      ∧ ∀ t ∈ (lex cfg s).toks, t.lineno = lineOf s t.start ∧ t.pos = colOf s t.start ∧ t.start ≤ t.stop := by
+  obtain ⟨q, hq, hc, ht⟩ := (lex_ok cfg s).pre
+  refine ⟨q, hq, hc, ?_, fun t m => ⟨(ht t m).line, (ht t m).col, (ht t m).le⟩⟩
+  have := (Chain.flatten s hc (fun t m => (ht t m).le)).2
+  rw [this]
+  simp [slice]
+
+example : (lex Cfg.current (lit "ab\n${x}\n% if y:\nz${")).outcome = .error .expected 4 2
+    ∧ (lex Cfg.current (lit "ab\n${x}\n% if y:\nz${")).toks.length = 5 := by decide +kernel
 
 example : (lex Cfg.asFound (lit "ab\n  ${x}")).toks.map (fun t => (t.start, t.lineno, t.pos)) = [(0, 1, 1), (5, 2, 3)] := by
   decide +kernel
